@@ -698,7 +698,7 @@ func (g *caseGen) fuzzCase(emit func(hxlib.Case), modelled bool) {
 		g.dbs = []string{g.pick("hmap", "hmsd", "sink", "hmap")}
 		g.kind = "fuzz-modelled"
 	} else {
-		g.dbs = []string{g.pick("bolt", "blsd", "bdgr", "fstr")}
+		g.dbs = []string{g.pick("bolt", "blsd", "bdgr", "fsfz")}
 		g.kind = "fuzz-impl-only"
 		g.noModel = true
 	}
@@ -756,7 +756,7 @@ func (g *caseGen) modelSafe(m []byte) bool {
 		}
 	}
 	switch name {
-	case "bolt", "blsd", "bdgr", "fstr":
+	case "bolt", "blsd", "bdgr", "fstr", "fsfz":
 		return false
 	}
 	return true
